@@ -27,7 +27,7 @@ MANIFEST = {
             'node\'s greeting handler (an observation wrapper installed by the harness at run time, not a repo hook).',
 }
 
-BEHAVIOURS = ['greets', 'greets', 'silent', 'refuses', 'timeout', 'closes_after_hello', 'announcer', 'self']
+BEHAVIOURS = ['greets', 'greets', 'silent', 'refuses', 'timeout', 'unreachable', 'closes_after_hello', 'announcer', 'self']
 
 
 def generate(seed, tier):
@@ -42,7 +42,7 @@ def generate(seed, tier):
     if long_run:
         # weeks of virtual time: only addresses that never greet (no protocol traffic), so runs stay cheap
         for a in addrs:
-            a['behaviour'] = rng.choice(['refuses', 'refuses', 'timeout', 'silent'])
+            a['behaviour'] = rng.choice(['refuses', 'refuses', 'timeout', 'silent', 'unreachable'])
         addrs[0]['behaviour'] = 'refuses'
         addrs[0]['known'] = True
     ops = []
@@ -59,7 +59,7 @@ def generate(seed, tier):
             ops.append({'op': 'tick', 'dt': dt})
         elif x < 0.55:
             ops.append({'op': 'toggle', 'addr': rng.randrange(1, n_addr) if long_run else rng.randrange(n_addr),
-                        'behaviour': rng.choice(['refuses', 'timeout', 'silent']) if long_run else rng.choice(BEHAVIOURS[:-1])})
+                        'behaviour': rng.choice(['refuses', 'timeout', 'silent', 'unreachable']) if long_run else rng.choice(BEHAVIOURS[:-1])})
         elif x < 0.7:
             ops.append({'op': 'incoming', 'addr': rng.randrange(n_addr), 'my_port': rng.choice([0, 2412, 2413, 9000, 'same']),
                         'greet': rng.random() < 0.8 and not long_run})
@@ -148,6 +148,7 @@ def execute(script):
     orig_hello = rp.ConnectedRemotePeer.handle_hello_message_received
     orig_connect = k.net.connect
     self_addrs = set()
+    own_dials = [0]
 
     def hello_wrapper(self, header, message):
         if self.direction == 'OUTGOING' and self.local_peer is node.lp:
@@ -164,6 +165,12 @@ def execute(script):
             t = int(node.clock_s())
             res.bump('outgoing_attempts')
             problem = ref.attempt((addr[0], addr[1]), t)
+            if (addr[0], addr[1]) == ('10.0.0.1', 2412):
+                # the node's own listening address: the first connection to it must be recognised (by whichever end) and the
+                # address never dialled again in this incarnation
+                own_dials[0] += 1
+                if own_dials[0] > 1 and not problem:
+                    problem = 'an address detected as the node itself was attempted again (dial #%d of its own address)' % own_dials[0]
             trace.add(k.now, 'attempt', addr[0], addr[1], t)
             if problem and not state['violated']:
                 state['violated'] = True
@@ -206,6 +213,8 @@ def execute(script):
             b.listen(a['port'])
         if beh == 'timeout':
             k.net.blackholes.add((a['host'], a['port']))
+        if beh == 'unreachable':
+            k.net.unreachable.add(a['host'])
         return b
 
     def apply_behaviour(i, beh):
@@ -214,6 +223,7 @@ def execute(script):
         if b is None:
             return
         k.net.blackholes.discard((a['host'], a['port']))
+        k.net.unreachable.discard(a['host'])
         if b.lsock is not None and b.lsock.state == 'listening':
             b.lsock.close()
             b.lsock = None
@@ -224,6 +234,8 @@ def execute(script):
             b.listen(a['port'])
         if beh == 'timeout':
             k.net.blackholes.add((a['host'], a['port']))
+        if beh == 'unreachable':
+            k.net.unreachable.add(a['host'])
 
     try:
         with_self = []
@@ -327,6 +339,7 @@ def execute(script):
                 node.on_step = after_step
                 ref.reset()
                 self_addrs.clear()
+                own_dials[0] = 0
                 res.bump('fault:restart')
             elif kind == 'write_peers_crash':
                 a = cfg['addrs'][op['addr'] % len(cfg['addrs'])]
